@@ -107,6 +107,14 @@ claim('C25', 'E1', 'stateless DFS over interleavings of SharedPollPublish, refre
       'Every interleaving up to deviation bound 1-2 of 15-26 scenarios (versioned with KeepLatestData / PrevData / plain, versionless content and hash modes); per (connection, key): pushed versions strictly increase, deltas apply to the held data, nothing after untrack / revoke / unsubscribe, newest version held at quiescence, publisher epoch change ends subscriptions with insufficient state.',
       'One node, 1-2 connections, keys {a,b}; refresh timer on the virtual clock; thorough tier is bound 2 only for the smaller scenarios.')
 
+e1('C26', 'first subscribe / last unsubscribe / disconnect of two connections on one channel, delayed broker-unsubscribe jobs of the dissolver on the virtual clock, broker Subscribe/Unsubscribe failures as environment choices', 'Every interleaving within the bound; whenever a subscribe acknowledgement is written the broker is subscribed to the channel, publications to acknowledged subscribers arrive, and at quiescence the broker-subscribed set equals the channels with local subscribers.')
+e1('C37', 'concurrent subscribe attempts of every kind (client command with async callbacks, map subscribe, Client.Subscribe, Node.Subscribe) against ClientChannelLimit 1-2, channel name lengths around ChannelMaxLength, pending bytes around ClientQueueMaxSize', 'Every interleaving within the bound; acknowledged subscriptions never exceed the limit, surplus attempts get limit-exceeded (server-side: channel-limit disconnect), over-long names are rejected, the connection is closed as slow exactly when pending bytes exceed the queue limit.')
+e1('C41', 'survey responses (own, duplicate, foreign id, late) delivered by separate threads in all orders on 2-3 nodes joined by a loop-back controller, deadline on the virtual clock, two concurrent surveys', 'Every interleaving within the bound; results contain at most one answer per node and only for this survey, Survey returns as soon as all nodes answered or at the deadline, nothing blocks for ever.')
+e1('C11', 'connect command (with server-side subscriptions) racing Client.Send via the hub, Node.Subscribe, Node.Publish, Node.Disconnect and close, on a recording transport, a recording DictionaryAwareTransport double and the real websocketTransport over an in-memory connection', 'Every interleaving within the bound (0-2 per variant); the first frame written must be the connect reply; with a dictionary the connect reply is raw, every later frame passes the encoder, the encoder is closed exactly once, after its last use and never overlapping one.')
+claim('C36', 'E2', 'exhaustive enumeration of event orders (up to 4-5 events: time steps to just before / at / after each deadline, pong, refresh command, Client.Refresh, sub_refresh, presence tick) on one real connection over the virtual clock against three-valued reference timelines',
+      'Every event sequence for ping/pong, stale, connection expiry (client- and server-side refresh) and subscription expiry (client- and server-side, server-side subscription); a connection/subscription is ended with the right code exactly when the reference timeline says it must be, never when it must not.',
+      'Expiry times are unix seconds, so the reference model has a 1 s (+ presence interval) undetermined window in which either outcome is accepted.')
+
 NA = {
  'C18': 'needs a Redis server (or faithful emulator) to execute the Redis broker; none exists in the sealed sandbox, so Redis-vs-Memory agreement cannot be explored',
  'C23': 'needs a Redis server (or faithful emulator) to execute the Redis map broker; none exists in the sealed sandbox',
